@@ -8,6 +8,7 @@ from pyvc.contracts import FN, LOOP, LEMMA
 from pyvc.models_wire import WirePlugin
 from contracts import varint as _v
 
+DEPENDS = ['varint']
 SPEC_MODULES = ("wire",)
 PLUGINS = [WirePlugin()]
 LEMMAS = _v.LEMMAS
@@ -53,7 +54,7 @@ CONTRACTS = [
        yields=_yields("stream.pos", "D0") + [("frame", "stream.data == D0")],
        ends=[("C10-ends-only-at-a-record-boundary", "P == len(D0) and stream.pos == len(D0)"), ("frame", "stream.data == D0")],
        raises=[("ValueError", "may", ""), ("EOFError", "may", "")],
-       use=[("SLICE_TAIL", {"d": "D0", "p": "P", "q": "len(D0)"}),
+       use=[("SLICE_TAIL", {"d": "D0", "p": "P", "q": "len(D0)"}), ("SLICE_TAIL", {"d": "D0", "p": "P", "q": "P + 1"}),
             ("SLICE_TAIL", {"d": "D0", "p": "P", "q": "P + VLEN(D0[P:])"})],
        props=["C08", "C10", "C17", "C01", "C02"]),
     FN("betterproto.parse_fields", generator=True,
